@@ -112,3 +112,44 @@ impl core::ops::Deref for Bytes {
     #[verifier::external_body]
     fn deref(&self) -> (r: &[u8]) ensures r@ == self@ { unimplemented!() }
 }
+
+// std::io::Cursor<&mut BytesMut> used as a non-consuming reader (bytes::Buf for Cursor).
+// Prophecy-style: `fut()` is the value the borrowed buffer has when the borrow ends.
+#[verifier::external_body]
+pub struct Cursor<'a> { _c: core::marker::PhantomData<&'a mut BytesMut> }
+impl<'a> Cursor<'a> {
+    pub uninterp spec fn data(&self) -> Seq<u8>;
+    pub uninterp spec fn pos(&self) -> nat;
+    pub uninterp spec fn fut(&self) -> Seq<u8>;
+    #[verifier::external_body]
+    pub fn new(inner: &'a mut BytesMut) -> (r: Cursor<'a>)
+        ensures r.data() == old(inner)@, r.pos() == 0, r.fut() == final(inner)@
+    { unimplemented!() }
+    #[verifier::external_body]
+    pub fn remaining(&self) -> (r: usize)
+        ensures r == (if self.pos() <= self.data().len() { self.data().len() - self.pos() } else { 0 })
+    { unimplemented!() }
+    #[verifier::external_body]
+    pub fn position(&self) -> (r: u64) ensures r == self.pos() { unimplemented!() }
+    #[verifier::external_body]
+    pub fn copy_to_slice(&mut self, dst: &mut [u8])
+        requires old(self).pos() + old(dst)@.len() <= old(self).data().len()
+        ensures final(dst)@ == old(self).data().subrange(old(self).pos() as int, (old(self).pos() + old(dst)@.len()) as int),
+            final(self).pos() == old(self).pos() + old(dst)@.len(), final(self).data() == old(self).data(), final(self).fut() == old(self).fut()
+    { unimplemented!() }
+    #[verifier::external_body]
+    pub fn copy_to_bytes(&mut self, n: usize) -> (r: Bytes)
+        requires old(self).pos() + n <= old(self).data().len()
+        ensures r@ == old(self).data().subrange(old(self).pos() as int, (old(self).pos() + n) as int),
+            final(self).pos() == old(self).pos() + n, final(self).data() == old(self).data(), final(self).fut() == old(self).fut()
+    { unimplemented!() }
+    /// gives the borrow back: the buffer still holds data() and whatever the caller does next is its final value
+    #[verifier::external_body]
+    pub fn into_inner(self) -> (r: &'a mut BytesMut)
+        ensures r@ == self.data(), final(r)@ == self.fut()
+    { unimplemented!() }
+}
+/// TRUSTED hint: a cursor that goes out of scope without into_inner() leaves the borrowed buffer as it was.
+/// May only be invoked where the cursor is dropped (checked by reading; see DESIGN.md 4).
+#[verifier::external_body]
+pub proof fn axiom_cursor_dropped(c: &Cursor) ensures c.fut() == c.data() {}
